@@ -1,7 +1,7 @@
 (* Extract.v -- extraction of the executable model and spec oracles to OCaml.
    ExtrOcamlBasic only; numbers stay the Coq datatypes. *)
 From Coq Require Import Extraction ExtrOcamlBasic.
-From Lhasa Require Import Base Generated Crc16 DecBase BitReader Null Lzs Lz5 Decoder.
+From Lhasa Require Import Base Generated Crc16 DecBase BitReader Null Lzs Lz5 Decoder S_Larc.
 Extraction Language OCaml.
 Set Extraction Optimize.
 Extraction "../harness/ml/model.ml"
@@ -9,4 +9,5 @@ Extraction "../harness/ml/model.ml"
   src_cb lha_decoder_new lha_decoder_monitor lha_decoder_read lha_decoder_get_crc lha_decoder_get_length
   null_init null_read null_max_read null_block_size
   lzs_init lzs_read lzs_max_read lzs_block_size
-  lz5_init lz5_read lz5_max_read lz5_block_size.
+  lz5_init lz5_read lz5_max_read lz5_block_size
+  lzs_expand lz5_expand lzs_serialise lz5_serialise lzs_wf_cmd lz5_wf_cmd.
